@@ -484,6 +484,22 @@ func uuidV1Setters(c *vf.Ctx) {
 		var mb [16]byte
 		copy(mb[:], m)
 		g := guuid.UUID(mb)
+		// formatting is a function of the FIELDS: String() right after the setters, on an object that was never
+		// marshalled, prints the same text as formatting the marshalled bytes
+		{
+			var f uuid_v1.UUIDv1
+			var txt string
+			p2, m2, w2 := vf.Try(func() {
+				f.Variant = tc.varnt
+				f.SetTime(tc.t)
+				f.SetClockSequence(tc.clk)
+				f.SetNodeID(tc.node[:])
+				txt = f.String()
+			})
+			l.Check("C13/uuid_v1/setters-then-String/text-equals-text-of-marshalled-bytes", !p2 && strings.EqualFold(txt, g.String()), func() string {
+				return fmt.Sprintf("%s; String() without a Marshal call in between = %q, the marshalled bytes %x format as %q (panic=%v %s %s)", desc, txt, mb, g.String(), p2, m2, w2)
+			})
+		}
 		wantTicks := ref.V1Ticks(tc.t)
 		sec, nsec := g.Time().UnixTime()
 		trunc := time.Unix(tc.t.Unix(), int64(tc.t.Nanosecond()/100*100))
@@ -706,6 +722,24 @@ func uuidV2Setters(c *vf.Ctx) {
 		}) {
 			return
 		}
+		{
+			var f uuid_v2.UUIDv2
+			var txt string
+			p2, m2, w2 := vf.Try(func() {
+				f.Variant = tc.varnt
+				f.SetTime(tc.t)
+				f.SetLocalDomainNumber(tc.ldn)
+				f.SetLocalDomain(tc.ld)
+				f.SetClock(tc.clock)
+				f.SetNodeID(tc.node[:])
+				txt = f.String()
+			})
+			var mb0 [16]byte
+			copy(mb0[:], m)
+			l.Check("C13/uuid_v2/setters-then-String/text-equals-text-of-marshalled-bytes", !p2 && strings.EqualFold(txt, guuid.UUID(mb0).String()), func() string {
+				return fmt.Sprintf("%s; String() without a Marshal call in between = %q, the marshalled bytes %x format as %q (panic=%v %s %s)", desc, txt, mb0, guuid.UUID(mb0).String(), p2, m2, w2)
+			})
+		}
 		l.Check("C13/uuid_v2/SetTime/version-field-stays-2", verAfterSetTime == 2, func() string {
 			return fmt.Sprintf("new UUIDv2; SetTime(%s): the exported Version field is %d afterwards (want 2: formatting then parsing must return the same fields)", tc.t.Format(time.RFC3339Nano), verAfterSetTime)
 		})
@@ -813,6 +847,18 @@ func uuidV8(c *vf.Ctx, V [][16]byte) {
 				err = back.FromString(f.String())
 			}
 		})
+		{
+			var f2 uuid_v8.UUIDv8
+			var txt string
+			p2, m2, w2 := vf.Try(func() {
+				f2.Variant = vr
+				f2.SetData(data[:])
+				txt = f2.String()
+			})
+			l.Check("C13/uuid_v8/SetData-then-String/text-equals-text-of-marshalled-bytes", !p2 && strings.EqualFold(txt, guuid.UUID(v).String()), func() string {
+				return fmt.Sprintf("UUIDv8{Variant:%x}.SetData(%x); String() without a Marshal call in between = %q, want %q (panic=%v %s %s)", vr, data, txt, guuid.UUID(v).String(), p2, m2, w2)
+			})
+		}
 		l.Check("C13/uuid_v8/SetData-Marshal/equals-reference-and-parses-back", !pan && err == nil && bytes.Equal(m, v[:]) && bytes.Equal(back.GetData(), data[:]) && back.Variant == vr, func() string {
 			return fmt.Sprintf("UUIDv8{Variant:%x}.SetData(%x): Marshal = %x want %x; parsed back Data=%x Variant=%x err=%v panic=%v %s %s", vr, data, m, v, back.GetData(), back.Variant, err, pan, msg, where)
 		})
